@@ -269,6 +269,79 @@ func runC12(c *Ctx) {
 		c.mustFollowIter(fn, "peer connected", starts, goRun, "go r.Run(w.jobResults, w.quit)", nil, 1)
 	})
 
+	c.rule("C12.O4", "a job is never handed to a dead worker: the dispatcher's blocking hand-over (the select that sends on worker.NewJob()) also waits on that worker's exit signal (activeWorker.onExit), and on that arm forgets the worker and moves on; a peer that disconnected between jobs would otherwise block the dispatcher, and every batch with it, until shutdown", func() {
+		fn := c.fn(fnDispatch)
+		newJob := c.method("query", "Worker", "NewJob")
+		onExit := c.field("query", "activeWorker", "onExit")
+		aw := c.P.Named("query", "activeWorker")
+		var hand []*ssa.Select
+		ir.Instrs(fn, func(in ssa.Instruction) {
+			sel, ok := in.(*ssa.Select)
+			if !ok || !sel.Blocking {
+				return
+			}
+			for _, st := range sel.States {
+				if st.Dir == types.SendOnly && ir.DerivesFrom(st.Chan, valIsCallTo(newJob)) {
+					hand = append(hand, sel)
+				}
+			}
+		})
+		construct := c.nm(fn) + " | hand-over select has the worker's exit arm"
+		if len(hand) != 1 {
+			c.fail(construct, c.P.Pos(fn.Pos()), fmt.Sprintf("%d blocking select(s) sending on worker.NewJob(), 1 tabled", len(hand)))
+			return
+		}
+		sel := hand[0]
+		// the worker record the job channel was taken from
+		recOf := func(v ssa.Value) ssa.Value {
+			var rec ssa.Value
+			ir.InfluencedBy(v, func(x ssa.Value) bool {
+				if fa, ok := x.(*ssa.FieldAddr); ok {
+					if p, ok := fa.X.Type().Underlying().(*types.Pointer); ok && aw != nil && types.Identical(p.Elem(), aw) {
+						rec = fa.X
+						return true
+					}
+				}
+				return false
+			})
+			return rec
+		}
+		var jobRec ssa.Value
+		exitIdx := -1
+		for _, st := range sel.States {
+			if st.Dir == types.SendOnly && ir.DerivesFrom(st.Chan, valIsCallTo(newJob)) {
+				jobRec = recOf(st.Chan)
+			}
+		}
+		for i, st := range sel.States {
+			if st.Dir == types.RecvOnly && loadsField(onExit)(st.Chan) && recOf(st.Chan) != nil && recOf(st.Chan) == jobRec {
+				exitIdx = i
+			}
+		}
+		c.verdict(exitIdx >= 0, construct, c.at(sel), "case <-r.onExit in the same select, for the same worker record", "the hand-over select does not wait on the exit signal of the worker it hands the job to", c.at(sel))
+		if exitIdx < 0 {
+			return
+		}
+		// on that arm the worker is forgotten
+		var starts []start
+		for _, r := range ir.Refs(sel) {
+			e, ok := r.(*ssa.Extract)
+			if !ok || e.Index != 0 {
+				continue
+			}
+			for _, ib := range ir.IntEqBranches(e) {
+				if ib.K == int64(exitIdx) {
+					starts = append(starts, atEdge(c, ib.Edge(), "worker exited at "+c.at(sel)))
+				}
+			}
+		}
+		del := mapDelete(func(m ssa.Value) bool {
+			mt, ok := m.Type().Underlying().(*types.Map)
+			return ok && aw != nil && elemIs(mt.Elem(), aw)
+		})
+		c.mustFollowIter(fn, "the worker's exit signal", starts, del, "delete(workers, addr)", nil, 1)
+	})
+
 	c.rule("C12.O2", "worker.Run: once a job is received every path to the next job or to a return passes the send of a result (select with the results channel), except through the quit arm; an error-free result is sent only after the handler reported Finished", func() {
 		fn := c.fn(fnWRun)
 		nextJob := c.field("query", "worker", "nextJob")
